@@ -303,6 +303,120 @@ def make_queries(rnd, case, pools, present, nslice):
     return qs
 
 
+def herm_parent(rnd, n, dt, sparse_ties, present):
+    """(tree, psd): a square tree whose matrix is Hermitian (psd: positive semi-definite) by construction"""
+    cplx = dt in T.CPLX
+    g = T.Gen(rnd, kinds=[k for k in T.LEAF + T.COMP if k not in ("KronSum",)], dts=(dt,), vmax=2)
+    g.concat_equal = True
+    g.sparse_sorted = True
+
+    def v(real=False):
+        return [rnd.randint(-2, 2), rnd.randint(-2, 2) if (cplx and not real) else 0]
+
+    def sub(shape, d):
+        for _ in range(40):
+            t = sanitize(g.tree(d, shape, cplx), sparse_ties)
+            if tree_ok(t, present):
+                return t
+        return dict(k="Dense", dt=dt, a=[[v() for _ in range(shape[1])] for _ in range(shape[0])])
+
+    def herm(n, depth):
+        form = rnd.choice(["dense", "gram", "sum", "prod", "diag", "kron", "kron", "bdiag"] if depth > 0 else ["dense", "gram", "diag"])
+        if form == "dense":
+            a = [[None] * n for _ in range(n)]
+            for i in range(n):
+                for j in range(i, n):
+                    x = v(real=(i == j))
+                    a[i][j] = x
+                    a[j][i] = [x[0], -x[1]]
+            return dict(k="Dense", dt=dt, a=a), False
+        if form == "gram":
+            p = rnd.randint(1, 2)
+            X = np.array([[complex(*v()) for _ in range(n)] for _ in range(p)])
+            G = X.conj().T @ X
+            return dict(k="Dense", dt=dt, a=T.to_gauss(G)), True
+        if form == "diag":
+            psd = rnd.random() < 0.5
+            return dict(k="Diag", dt=dt, d=[[rnd.randint(0 if psd else -3, 3), 0] for _ in range(n)]), psd
+        if form == "sum":
+            B = sub((n, n), depth - 1)
+            return dict(k="Sum", ms=[B, dict(k="Adj", a=B)]), False
+        if form == "prod":
+            B = sub((rnd.randint(1, 3), n), depth - 1)
+            return dict(k="Prod", ms=[dict(k="Adj", a=B), B]), True
+        if form == "bdiag":
+            b = rnd.randint(1, n)
+            if b == n:
+                h, ps = herm(n, depth - 1)
+                return dict(k="BDiag", ms=[h], mu=[1]), ps
+            h1, p1 = herm(b, depth - 1)
+            h2, p2 = herm(n - b, depth - 1)
+            return dict(k="BDiag", ms=[h1, h2], mu=[1, 1]), (p1 and p2)
+        fs = [(a, n // a) for a in range(1, n + 1) if n % a == 0]
+        a, b = rnd.choice(fs)
+        h1, p1 = herm(a, depth - 1)
+        h2, p2 = herm(b, depth - 1)
+        return dict(k="Kron", ms=[h1, h2]), (p1 and p2)
+    return herm(n, rnd.randint(0, 2))
+
+
+def slice_of(idx):
+    s = T.range_slice(idx)
+    return (s.start, s.stop, s.step)
+
+
+def two_level_slices(rnd, n):
+    """(rows, cols) index lists, both arithmetic progressions: equal selections, equal index SETS in a different order
+    (one axis reversed), shifted selections of equal length, unrelated ones"""
+    def prog():
+        st = rnd.choice([1, 1, 2, 3])
+        a = rnd.randint(0, n - 1)
+        k = rnd.randint(1, (n - 1 - a) // st + 1)
+        return [a + i * st for i in range(k)]
+    kind = rnd.choice(["equal", "equal_rev", "rev_rows", "rev_cols", "rev_rows", "rev_cols", "shift", "free"])
+    L = prog()
+    if kind == "equal":
+        return L, L
+    if kind == "equal_rev":
+        return L[::-1], L[::-1]
+    if kind == "rev_rows":
+        return L[::-1], L
+    if kind == "rev_cols":
+        return L, L[::-1]
+    if kind == "shift":
+        k = len(L)
+        a, b = rnd.randint(0, n - k), rnd.randint(0, n - k)
+        return list(range(a, a + k)), list(range(b, b + k))
+    return prog(), prog()
+
+
+def annotated_cases(ctx, present, n_cases, pools, sparse_ties):
+    """operators carrying a true SelfAdjoint / PSD declaration: indexed directly, and - two-level - through a slice taken
+    from them with __getitem__ (what the slice inherits decides what `self.T` is in the row forms)"""
+    rnd = ctx.rng
+    out = []
+    tries = 0
+    while len(out) < n_cases and tries < 40 * n_cases:
+        tries += 1
+        n = rnd.randint(2, 6)
+        dt = rnd.choice(T.DTS)
+        parent, psd = herm_parent(rnd, n, dt, sparse_ties, present)
+        if T.absbound(parent) * 5 * n > 2 ** 20:
+            continue
+        D = T.dense(parent)
+        assert np.array_equal(D, D.conj().T)
+        ann = "PSD" if (psd and rnd.random() < 0.6) else "SelfAdjoint"
+        if rnd.random() < 0.2:
+            c = dict(tree=parent, m=n, n=n, cplx=dt in T.CPLX, ann=ann)
+        else:
+            rs, cs = two_level_slices(rnd, n)
+            c = dict(tree=dict(k="Sliced", a=parent, rs=rs, cs=cs), m=len(rs), n=len(cs), cplx=dt in T.CPLX,
+                     two=dict(ann=ann, s1=slice_of(rs), s2=slice_of(cs)))
+        c["queries"] = make_queries(rnd, c, pools, present, nslice=6)
+        out.append(c)
+    return out
+
+
 def gen_cases(ctx, present, n_extra, passes):
     rnd = ctx.rng
     sparse_ties = sparse_tie_defect()
@@ -354,6 +468,8 @@ def gen_cases(ctx, present, n_extra, passes):
             continue
         c["queries"] = make_queries(rnd, c, pools, present, nslice=12)
         cases.append(c)
+    # phase 3: annotated operators and two-level indexing
+    cases += annotated_cases(ctx, present, ctx.budget(90, 1200), pools, sparse_ties)
     return cases, pools, exhaustive_cases
 
 
@@ -423,7 +539,7 @@ def run(ctx):
                 attributed[flag] = attributed.get(flag, 0) + 1
                 continue
             if fails or model_bad:
-                mism.append(dict(oracle_fail=bool(fails), case=dict(tree=c["tree"], ix=qd["ix"], X=qd.get("X"), dx=qd.get("dx")),
+                mism.append(dict(oracle_fail=bool(fails), case=dict(tree=c["tree"], two_level=c.get("two"), declared=c.get("ann"), ix=qd["ix"], X=qd.get("X"), dx=qd.get("dx")),
                                  got=o, oracle_says=why, model_disagrees=model_bad, flags=fl))
     distinct = len({(core.digest(c["tree"]), core.digest(qd["ix"])) for c in cases for qd in c["queries"]
                     if O.nontrivial(c) or qd["ix"][0] == "two"})
@@ -443,4 +559,7 @@ def run(ctx):
                    kind_histogram=O.histogram(cases), shape_classes=shapes, outcome_classes=classes, index_forms=forms,
                    attributed_to_present_flags=attributed, model_flags=fl,
                    complex_cases=sum(1 for c in cases if c["cplx"]),
+                   annotated_cases=sum(1 for c in cases if c.get("ann")), two_level_cases=sum(1 for c in cases if c.get("two")),
+                   two_level_inheriting=sum(1 for c in cases if c.get("two") and c.get("tself")),
+                   transpose_is_self_cases=sum(1 for c in cases if c.get("tself")),
                    note_single_list="A[[i,j]] (one python list of two ints) is matched by `case b, int(j)` and returns the scalar A[i,j]; outside the statement's forms, modelled"))
